@@ -67,13 +67,15 @@ class Outcome:
 
 
 class _Subst(ast.NodeTransformer):
-    def __init__(self, env):
+    def __init__(self, env, deep=False, force=False):
         self.env = env
+        self.deep = deep
+        self.force = force
 
     def visit_Name(self, node):
         if isinstance(node.ctx, ast.Load) and node.id in self.env:
             v = self.env[node.id]
-            if is_mutable_display(v):
+            if not self.force and is_mutable_display(v) and not (self.deep and ("<mut:" + node.id + ">") not in self.env):
                 return node  # keep the identity of a locally built container
             return copy.deepcopy(v)
         return node
@@ -119,8 +121,9 @@ def is_mutable_display(v: ast.AST) -> bool:
     return False
 
 
-def subst(e: ast.expr, env: Dict[str, ast.expr]) -> ast.expr:
-    return ast.fix_missing_locations(_Subst(env).visit(copy.deepcopy(e)))
+def subst(e: ast.expr, env: Dict[str, ast.expr], deep: bool = False) -> ast.expr:
+    """deep=True also inlines locally built containers that were never mutated"""
+    return ast.fix_missing_locations(_Subst(env, deep).visit(copy.deepcopy(e)))
 
 
 def k_not(a):
@@ -165,7 +168,11 @@ class Interp:
 
     # ----------------------------------------------------------------- truth
     def tv(self, e: ast.expr, env: Dict[str, ast.expr]) -> Optional[bool]:
-        return self._tv(subst(e, env))
+        self._env = env
+        r = self._tv(subst(e, env))
+        if r is None:
+            r = self._tv(subst(e, env, deep=True))
+        return r
 
     def _tv(self, e: ast.expr) -> Optional[bool]:
         if isinstance(e, ast.BoolOp):
@@ -180,6 +187,19 @@ class Interp:
         r = self.atom(e)
         if r is not None:
             return r
+        if isinstance(e, ast.Name) and is_mutable_display(getattr(self, "_env", {}).get(e.id)):
+            # truthiness of a locally built container: known when it was filled or never touched
+            base = self._env[e.id]
+            muts = self._env.get("<mut:" + e.id + ">")
+            mlist = list(muts.elts) if isinstance(muts, ast.List) else []
+            grows = [m for m in mlist if isinstance(m, ast.Call) and ((isinstance(m.func, ast.Name) and m.func.id == "<setitem>")
+                     or (isinstance(m.func, ast.Attribute) and m.func.attr in ("append", "add", "insert", "setdefault")))]
+            if grows:
+                return True
+            if not mlist and isinstance(base, (ast.List, ast.Set)):
+                return len(base.elts) > 0
+            if not mlist and isinstance(base, ast.Dict):
+                return len(base.keys) > 0
         if isinstance(e, ast.Compare) and len(e.ops) == 1 and type(e.ops[0]) in _NEG:
             pos = ast.Compare(left=e.left, ops=[_NEG[type(e.ops[0])]()], comparators=e.comparators)
             ast.copy_location(pos, e)
@@ -389,6 +409,10 @@ class Interp:
 
     def _bind(self, target: ast.expr, value: ast.expr, state: State) -> None:
         if isinstance(target, ast.Name):
+            old = state.env.get(target.id)
+            if old is not None and _mentions(value, target.id):
+                # x = f(x): the old value of x (kept symbolic when it is a container) is inlined
+                value = ast.fix_missing_locations(_Subst({target.id: old}, force=True).visit(copy.deepcopy(value)))
             state.env[target.id] = value
             state.env.pop("<mut:" + target.id + ">", None)
         elif isinstance(target, (ast.Tuple, ast.List)):
